@@ -367,6 +367,12 @@ func H_C04_send_vs_registration() {
 	verifJoin()
 	verifInterleave(false)
 	verifAssert(s.procs <= 1, "C04.send-vs-registration.at-most-once")
+	// once both calls have returned, a new Send sees exactly what the registry says (nothing stale survives the race)
+	before := s.procs
+	b.Send(r.ctx, "t", "payload")
+	registered := k == 0 // the other call registers p (k == 0) or removes it
+	verifAssert(s.procs-before == b2i(registered), "C04.send-vs-registration.later-send-sees-the-final-registry")
+	s.procs = before
 	if !pre && k != 0 {
 		verifAssert(s.procs == 0, "C04.send-vs-registration.never-registered-never-delivered")
 	}
